@@ -186,6 +186,37 @@ func rateLookup(c rateCase, path string) (ev rateEvent) {
 		inv := &bill.Invoice{Regime: tax.WithRegime(lcode(c.CC)), IssueDate: date, Lines: []*bill.Line{line()}}
 		inv.SetTags(tags...)
 		err = inv.Calculate()
+		if err == nil && combo.Percent != nil {
+			// the calculated document is then reused: other data is read into the same object (as a
+			// long-lived editor of documents would do).  Nothing of that may reach the rate tables;
+			// the look-ups that follow and the final comparison of the tables would show it.
+			pct := *combo.Percent
+			var sur *num.Percentage
+			if combo.Surcharge != nil {
+				sv := *combo.Surcharge
+				sur = &sv
+			}
+			if raw, e := json.Marshal(inv); e == nil {
+				var m map[string]any
+				if json.Unmarshal(raw, &m) == nil {
+					if ls, ok := m["lines"].([]any); ok && len(ls) > 0 {
+						if tx, ok := ls[0].(map[string]any)["taxes"].([]any); ok && len(tx) > 0 {
+							cm := tx[0].(map[string]any)
+							cm["percent"] = "77.7%"
+							if sur != nil {
+								cm["surcharge"] = "7.7%"
+							}
+							if edited, e := json.Marshal(m); e == nil {
+								_ = json.Unmarshal(edited, inv)
+								// this event reports what the calculation gave before the reuse
+								rp := pct
+								combo = &tax.Combo{Category: combo.Category, Rate: combo.Rate, Percent: &rp, Surcharge: sur}
+							}
+						}
+					}
+				}
+			}
+		}
 	case "invoice-value":
 		inv := &bill.Invoice{Regime: tax.WithRegime(lcode(c.CC)), IssueDate: other, ValueDate: &date, Lines: []*bill.Line{line()}}
 		inv.SetTags(tags...)
@@ -252,6 +283,7 @@ func ratesRun(seed int64, nrand int, in, out string) error {
 		}
 	}
 	tables := ratesTables()
+	before, _ := json.Marshal(tables)
 	r := rand.New(rand.NewSource(seed))
 	for i := 0; i < nrand; i++ {
 		rd := tables[r.Intn(len(tables))]
@@ -266,6 +298,23 @@ func ratesRun(seed int64, nrand int, in, out string) error {
 		}
 		emit(c)
 	}
+	// the tables are what they were when the run started
+	after, _ := json.Marshal(ratesTables())
+	intact := rateEvent{rateCase: rateCase{Date: []int{0, 0, 0}, Tags: []string{}, Ext: []string{}}, Path: "tables-intact", Res: "same", Pct: []tr.Amt{}, Sur: []tr.Amt{}}
+	if string(before) != string(after) {
+		intact.Res = "changed"
+		now := ratesTables()
+		for i := range tables {
+			a, _ := json.Marshal(tables[i])
+			b, _ := json.Marshal(now[i])
+			if string(a) != string(b) {
+				intact.CC, intact.Cat, intact.Key = tables[i].CC, tables[i].Cat, tables[i].Key
+				intact.Err = fmt.Sprintf("%s -> %s", a, b)
+				break
+			}
+		}
+	}
+	w.Emit(intact)
 	fmt.Printf("events=%d\n", w.N)
 	return w.Close()
 }
